@@ -24,6 +24,14 @@ Got(e) == [i \in DOMAIN e.got |-> [w |-> e.got[i].w, sn |-> e.got[i].sn, pid |->
                                    ts |-> e.got[i].ts, checkOrder |-> rel,
                                    checkHoles |-> rel /\ e.holes]]
 
+
+\* C06: a hostile datagram was injected; measurements taken by the harness around the call
+C06Viol(e) ==
+       (IF e.died # "" THEN {"C06_process_died_or_hung"} ELSE {})
+  \cup (IF e.panic THEN {"C06_panic"} ELSE {})
+  \cup (IF e.us > 250000 THEN {"C06_time_out_of_proportion"} ELSE {})
+  \cup (IF e.alloc > 1048576 + 256 * e.len THEN {"C06_memory_out_of_proportion"} ELSE {})
+
 TraceInit == AbsInit /\ l = 1 /\ rel = TRUE /\ run = 0
 
 AbsReset ==
@@ -57,6 +65,9 @@ Step ==
        [] e.ev = "Gap"       -> AbsGap(e.w, e.start, e.base, ToSet(e.set)) /\ UNCHANGED <<rel, run>>
        [] e.ev = "Spont"     -> AbsSpontaneous(e.w, Acks(e), Nfs(e)) /\ UNCHANGED <<rel, run>>
        [] e.ev = "Take"      -> ObsHand(Got(e)) /\ UNCHANGED <<rel, run>>
+       \* non-interference: a hostile datagram changes nothing in the abstract state of the well-behaved peers
+       [] e.ev = "Hostile"   -> viol' = viol \cup C06Viol(e) /\ UNCHANGED <<rel, run, matched, recv, unavMay, unavMust, everUnav, deliv, frags, hbCnt, hbRange, handed, hlow, low, ackBase, ackCnt, nfCnt>>
+       [] e.ev \in {"HostileBegin", "RunDone", "TakeErr"} -> UNCHANGED <<absVars, rel, run>>
   /\ (viol' # viol /\ viol' # {}) =>
         PrintT("VIOL line=" \o ToString(l) \o " run=" \o ToString(run') \o " clauses=" \o ToString(viol' \ viol))
 
